@@ -6,7 +6,12 @@
 (*     d   (leaves, declared functions) declared dimension vector            *)
 (*     a   (leaves) TRUE for zero / +-oo / NaN / wildcard-dimension symbols  *)
 (*     hn  (leaves) TRUE if the leaf is a rational number, v its value       *)
-(* and a stack entry is [d, a, hn, v].  A token is ENABLED only if the node  *)
+(*     lt  (leaves) > 0 names a dimensionless symbol (a possible exponent)   *)
+(* and a stack entry is [d, a, hn, v, lt, la, lb, st, sd]:                   *)
+(*     lt, la, lb   the entry is the number  la * (symbol lt) + lb           *)
+(*     st, sd       the entry's dimension is  d * sd ^ (symbol st); this is  *)
+(*                  how  volume ** gamma  keeps an exact dimension.           *)
+(*   A token is ENABLED only if the node  *)
 (* satisfies the property (terms of a sum / comparison have equivalent       *)
 (* dimensions modulo angle, exponents and arguments of exponential /         *)
 (* trigonometric / hyperbolic functions are dimensionless); so a program is  *)
@@ -14,20 +19,33 @@
 (* dimensions of the leaves come from the library.                           *)
 EXTENDS Dims, Sequences, FiniteSets, TLC
 
-Entry(d, a, hn, v) == [d |-> d, a |-> a, hn |-> hn, v |-> v]
+Entry(d, a, hn, v) == [d |-> d, a |-> a, hn |-> hn, v |-> v, lt |-> 0, la |-> RZero, lb |-> RZero, st |-> 0, sd |-> D1]
 AnyE       == Entry(D1, TRUE, FALSE, RZero)
 DimE(d)    == Entry(d, FALSE, FALSE, RZero)
 NumE(v)    == Entry(D1, FALSE, TRUE, v)
+\* dimension with a symbolic part; the symbolic part is dropped when it is trivial (modulo angle)
+SymE(d, st, sd) == IF st = 0 \/ Equiv(sd, D1) THEN DimE(d) ELSE [DimE(d) EXCEPT !.st = st, !.sd = sd]
+\* the number  la * (symbol lt) + lb
+LinE(lt, la, lb) == IF la = RZero THEN NumE(lb) ELSE [DimE(D1) EXCEPT !.lt = lt, !.la = la, !.lb = lb]
+HasSym(e) == e.st # 0
+SymEquiv(x, y) == IF HasSym(x) \/ HasSym(y) THEN x.st = y.st /\ Equiv(x.sd, y.sd) ELSE TRUE
 
 NonAny(xs) == {i \in DOMAIN xs : ~xs[i].a}
-AllEquiv(xs) == \A i, j \in NonAny(xs) : Equiv(xs[i].d, xs[j].d)
+AllEquiv(xs) == \A i, j \in NonAny(xs) : Equiv(xs[i].d, xs[j].d) /\ SymEquiv(xs[i], xs[j])
+First(xs) == xs[CHOOSE i \in NonAny(xs) : \A j \in NonAny(xs) : i <= j]
 Common(xs) == IF NonAny(xs) = {} THEN AnyE
-              ELSE DimE(xs[CHOOSE i \in NonAny(xs) : \A j \in NonAny(xs) : i <= j].d)
+              ELSE SymE(First(xs).d, First(xs).st, First(xs).sd)
 AnyIn(xs) == \E i \in DOMAIN xs : xs[i].a
-AngleFree(e) == e.a \/ DimlessUpToAngle(e.d)
+AngleFree(e) == e.a \/ (DimlessUpToAngle(e.d) /\ ~HasSym(e))
 
 RECURSIVE ProdDim(_)
 ProdDim(xs) == IF xs = <<>> THEN D1 ELSE DMul(Head(xs).d, ProdDim(Tail(xs)))
+RECURSIVE ProdSym(_)
+ProdSym(xs) == IF xs = <<>> THEN D1 ELSE DMul(Head(xs).sd, ProdSym(Tail(xs)))
+\* symbolic parts combine only if they are powers of one and the same symbol
+SymToks(xs) == {xs[i].st : i \in {j \in DOMAIN xs : HasSym(xs[j])}}
+OneSym(xs) == Cardinality(SymToks(xs)) <= 1
+TheSym(xs) == IF SymToks(xs) = {} THEN 0 ELSE CHOOSE s \in SymToks(xs) : TRUE
 
 SmallDim(d) == \A k \in Base : AbsI(d[k][1]) < 2000 /\ d[k][2] < 2000
 
@@ -38,6 +56,25 @@ ProdNum(xs) == IF xs = <<>> THEN ROne ELSE RMul(Head(xs).v, ProdNum(Tail(xs)))
 RECURSIVE SumNum(_)
 SumNum(xs) == IF xs = <<>> THEN RZero ELSE RAdd(Head(xs).v, SumNum(Tail(xs)))
 AllNum(xs) == \A i \in DOMAIN xs : xs[i].hn /\ NumSmall(xs[i].v)
+
+\* ---- linear forms  la * symbol + lb  of dimensionless operands (numbers are forms with la = 0) ----
+IsLin(e) == (e.hn /\ NumSmall(e.v)) \/ (~e.hn /\ e.lt # 0 /\ NumSmall(e.la) /\ NumSmall(e.lb))
+LA(e) == IF e.hn THEN RZero ELSE e.la
+LB(e) == IF e.hn THEN e.v ELSE e.lb
+LinIdx(xs) == {i \in DOMAIN xs : ~xs[i].hn}
+LinToks(xs) == {xs[i].lt : i \in LinIdx(xs)}
+\* a sum of forms in one symbol is a form; a product is one if exactly one factor is not a number
+SumLin(xs) == (\A i \in DOMAIN xs : IsLin(xs[i])) /\ Cardinality(LinToks(xs)) = 1
+ProdLin(xs) == (\A i \in DOMAIN xs : IsLin(xs[i])) /\ Cardinality(LinIdx(xs)) = 1
+TheLin(xs) == CHOOSE s \in LinToks(xs) : TRUE
+RECURSIVE SumLA(_)
+SumLA(xs) == IF xs = <<>> THEN RZero ELSE RAdd(LA(Head(xs)), SumLA(Tail(xs)))
+RECURSIVE SumLB(_)
+SumLB(xs) == IF xs = <<>> THEN RZero ELSE RAdd(LB(Head(xs)), SumLB(Tail(xs)))
+RECURSIVE ProdOthers(_)
+ProdOthers(xs) == IF xs = <<>> THEN ROne
+                  ELSE RMul(IF Head(xs).hn THEN Head(xs).v ELSE ROne, ProdOthers(Tail(xs)))
+TheForm(xs) == xs[CHOOSE i \in LinIdx(xs) : TRUE]
 
 -----------------------------------------------------------------------------
 (* Enabledness (the property) and result of one node.                        *)
@@ -61,28 +98,52 @@ NodeOK(tok, xs) ==
                                ELSE AllEquiv(<<xs[2], xs[3]>>) /\ AllEquiv(<<xs[2], xs[4]>>)
     [] OTHER                -> FALSE
 
-\* pow on a dimensional base needs the numeric value of the exponent
-PowDecided(xs) == xs[1].a \/ xs[2].a \/ DimlessUpToAngle(xs[1].d) \/ (xs[2].hn /\ NumSmall(xs[2].v))
+\* pow on a dimensional base needs the value of the exponent: a number, or a form  la * symbol + lb
+\* on a base without a symbolic part of its own
+PowDecided(xs) == \/ xs[1].a \/ xs[2].a
+                  \/ (DimlessUpToAngle(xs[1].d) /\ ~HasSym(xs[1]))
+                  \/ (xs[2].hn /\ NumSmall(xs[2].v))
+                  \/ (IsLin(xs[2]) /\ ~HasSym(xs[1]))
+\* a node whose dimension the machine cannot compute (its result is a wildcard; the trace is flagged)
+Decided(tok, xs) ==
+  CASE tok.op = "pow"   -> PowDecided(xs)
+    [] tok.op = "mul"   -> AnyIn(xs) \/ OneSym(xs)
+    [] tok.op = "integ" -> xs[1].a \/ xs[2].a \/ OneSym(<<xs[1], xs[2]>>)
+    [] tok.op = "deriv" -> AnyIn(xs) \/ OneSym(xs)
+    [] OTHER            -> TRUE
 
+MulE(xs) == SymE(ProdDim(xs), TheSym(xs), ProdSym(xs))
 Result(tok, xs) ==
-  CASE tok.op = "leaf"      -> Entry(tok.d, tok.a, tok.hn, tok.v)
-    [] tok.op = "mul"       -> IF AnyIn(xs) THEN AnyE
+  CASE tok.op = "leaf"      -> IF tok.lt # 0 /\ ~tok.a /\ ~tok.hn /\ tok.d = D1 THEN LinE(tok.lt, ROne, RZero)
+                               ELSE Entry(tok.d, tok.a, tok.hn, tok.v)
+    [] tok.op = "mul"       -> IF AnyIn(xs) \/ ~OneSym(xs) THEN AnyE
                                ELSE IF AllNum(xs) /\ NumSmall(ProdNum(xs)) THEN NumE(ProdNum(xs))
-                               ELSE DimE(ProdDim(xs))
-    [] tok.op = "add"       -> IF AllNum(xs) /\ NumSmall(SumNum(xs)) THEN NumE(SumNum(xs)) ELSE Common(xs)
+                               ELSE IF ProdLin(xs) /\ NumSmall(ProdOthers(xs))
+                                    THEN LinE(TheForm(xs).lt, RMul(TheForm(xs).la, ProdOthers(xs)),
+                                              RMul(TheForm(xs).lb, ProdOthers(xs)))
+                               ELSE MulE(xs)
+    [] tok.op = "add"       -> IF AllNum(xs) /\ NumSmall(SumNum(xs)) THEN NumE(SumNum(xs))
+                               ELSE IF SumLin(xs) THEN LinE(TheLin(xs), SumLA(xs), SumLB(xs))
+                               ELSE Common(xs)
     [] tok.op = "same"      -> Common(xs)
     [] tok.op = "rel"       -> AnyE
     [] tok.op = "pow"       -> IF xs[1].a THEN AnyE
-                               ELSE IF DimlessUpToAngle(xs[1].d) THEN DimE(D1)
-                               ELSE IF xs[2].a \/ ~xs[2].hn THEN AnyE      \* undecided exponent: see PowDecided
-                               ELSE DimE(DPow(xs[1].d, xs[2].v))
+                               ELSE IF DimlessUpToAngle(xs[1].d) /\ ~HasSym(xs[1]) THEN DimE(D1)
+                               ELSE IF xs[2].a THEN AnyE
+                               ELSE IF xs[2].hn /\ NumSmall(xs[2].v)
+                                    THEN SymE(DPow(xs[1].d, xs[2].v), xs[1].st, DPow(xs[1].sd, xs[2].v))
+                               ELSE IF IsLin(xs[2]) /\ ~HasSym(xs[1])
+                                    THEN SymE(DPow(xs[1].d, xs[2].lb), xs[2].lt, DPow(xs[1].d, xs[2].la))
+                               ELSE AnyE                                   \* undecided exponent: see PowDecided
     [] tok.op = "fn_strict" -> DimE(D1)
     [] tok.op = "fn_free"   -> DimE(D1)
     [] tok.op = "fn_decl"   -> DimE(tok.d)                  \* applied function with a declared dimension
     [] tok.op = "fn_any"    -> AnyE                         \* applied function without a declared dimension
-    [] tok.op = "keep"      -> Entry(xs[1].d, xs[1].a, FALSE, RZero)
-    [] tok.op = "deriv"     -> IF AnyIn(xs) THEN AnyE ELSE DimE(DDiv(xs[1].d, ProdDim(Tail(xs))))
-    [] tok.op = "integ"     -> IF xs[1].a \/ xs[2].a THEN AnyE ELSE DimE(DMul(xs[1].d, xs[2].d))
+    [] tok.op = "keep"      -> IF xs[1].a THEN AnyE ELSE SymE(xs[1].d, xs[1].st, xs[1].sd)
+    [] tok.op = "deriv"     -> IF AnyIn(xs) \/ ~OneSym(xs) THEN AnyE
+                               ELSE SymE(DDiv(xs[1].d, ProdDim(Tail(xs))), TheSym(xs), DDiv(xs[1].sd, ProdSym(Tail(xs))))
+    [] tok.op = "integ"     -> IF xs[1].a \/ xs[2].a \/ ~OneSym(<<xs[1], xs[2]>>) THEN AnyE ELSE MulE(<<xs[1], xs[2]>>)
+
 
 \* one step of the machine on an explicit stack; returns the new stack
 TopN(st, n) == SubSeq(st, Len(st) - n + 1, Len(st))
@@ -91,6 +152,7 @@ CanStep(tok, st) ==
   /\ tok.op \in Ops /\ Len(st) >= tok.n
   /\ NodeOK(tok, TopN(st, tok.n))
   /\ SmallDim(Result(tok, TopN(st, tok.n)).d)
+  /\ SmallDim(Result(tok, TopN(st, tok.n)).sd)
 StepStack(tok, st) == Append(PopN(st, tok.n), Result(tok, TopN(st, tok.n)))
 
 -----------------------------------------------------------------------------
@@ -103,8 +165,8 @@ vars == <<stack, prog>>
 L1 == BaseDim("L")
 T1 == BaseDim("T")
 A1 == BaseDim("A")
-Leaf(d, a, hn, v) == [op |-> "leaf", n |-> 0, d |-> d, a |-> a, hn |-> hn, v |-> v]
-Op(o, n) == [op |-> o, n |-> n, d |-> D1, a |-> FALSE, hn |-> FALSE, v |-> RZero]
+Leaf(d, a, hn, v) == [op |-> "leaf", n |-> 0, d |-> d, a |-> a, hn |-> hn, v |-> v, lt |-> 0]
+Op(o, n) == [op |-> o, n |-> n, d |-> D1, a |-> FALSE, hn |-> FALSE, v |-> RZero, lt |-> 0]
 LeafTok == [
   len   |-> Leaf(L1, FALSE, FALSE, RZero),
   time  |-> Leaf(T1, FALSE, FALSE, RZero),
@@ -118,7 +180,9 @@ LeafTok == [
   mone  |-> Leaf(D1, FALSE, TRUE, R(-1)),
   zero  |-> Leaf(D1, TRUE, FALSE, RZero),
   wild  |-> Leaf(D1, TRUE, FALSE, RZero),
-  gam   |-> Leaf(D1, FALSE, FALSE, RZero)          \* dimensionless symbol (symbolic exponent)
+  gam   |-> [Leaf(D1, FALSE, FALSE, RZero) EXCEPT !.lt = 1],    \* dimensionless symbols (symbolic exponents)
+  eta   |-> [Leaf(D1, FALSE, FALSE, RZero) EXCEPT !.lt = 2],
+  ratio |-> Leaf(D1, FALSE, FALSE, RZero)          \* dimensionless, but not usable as a named exponent
 ]
 OpTok == [
   mul2 |-> Op("mul", 2), add2 |-> Op("add", 2), add3 |-> Op("add", 3), pow |-> Op("pow", 2),
@@ -131,7 +195,7 @@ Push(l) == /\ Len(prog) + 1 + Len(stack) <= MaxLen
            /\ stack' = StepStack(LeafTok[l], stack) /\ prog' = Append(prog, l)
 Apply(o) == /\ Len(prog) + 1 + (Len(stack) - OpTok[o].n) <= MaxLen
             /\ CanStep(OpTok[o], stack)
-            /\ (OpTok[o].op = "pow" => PowDecided(TopN(stack, 2)))
+            /\ Decided(OpTok[o], TopN(stack, OpTok[o].n))
             /\ stack' = StepStack(OpTok[o], stack) /\ prog' = Append(prog, o)
 Next == (\E l \in LeafNames : Push(l)) \/ (\E o \in OpNames : Apply(o))
 Spec == Init /\ [][Next]_vars
@@ -142,10 +206,16 @@ Deg(d) == <<d["L"], d["T"]>>
 TypeOK == \A i \in DOMAIN stack : /\ \A k \in Base : IsRat(stack[i].d[k])
                                   /\ (stack[i].a => stack[i].d = D1)
                                   /\ (stack[i].hn => stack[i].d = D1 /\ ~stack[i].a)
+                                  /\ \A k \in Base : IsRat(stack[i].sd[k])
+                                  /\ (HasSym(stack[i]) => ~stack[i].a /\ ~stack[i].hn /\ ~Equiv(stack[i].sd, D1))
+                                  /\ (~HasSym(stack[i]) => stack[i].sd = D1)
+                                  /\ (stack[i].lt # 0 => stack[i].d = D1 /\ ~stack[i].a /\ ~stack[i].hn
+                                                            /\ ~HasSym(stack[i]) /\ stack[i].la # RZero)
 \* accepted sums are homogeneous functions: equal degree of all non-wildcard terms (scaling covariance)
 SumsHomogeneous ==
   \A n \in {2, 3} : Len(stack) >= n /\ NodeOK(Op("add", n), TopN(stack, n)) =>
-     \A i, j \in NonAny(TopN(stack, n)) : Deg(TopN(stack, n)[i].d) = Deg(TopN(stack, n)[j].d)
+     \A i, j \in NonAny(TopN(stack, n)) : /\ Deg(TopN(stack, n)[i].d) = Deg(TopN(stack, n)[j].d)
+                                           /\ Deg(TopN(stack, n)[i].sd) = Deg(TopN(stack, n)[j].sd)
 \* acceptance does not depend on the order of the terms
 OrderFree ==
   Len(stack) >= 2 => LET a == stack[Len(stack) - 1]  b == stack[Len(stack)] IN
@@ -160,7 +230,22 @@ WildcardsMatch ==
 \* angles count as dimensionless
 AngleInvisible ==
   \A i \in DOMAIN stack :
-     LET e == stack[i]  ea == Entry(DMul(e.d, A1), e.a, FALSE, RZero) IN
+     LET e == stack[i]  ea == [e EXCEPT !.d = DMul(e.d, A1), !.lt = 0] IN
        ~e.hn => /\ NodeOK(Op("add", 2), <<e, ea>>)
                 /\ (NodeOK(Op("fn_strict", 1), <<e>>) = NodeOK(Op("fn_strict", 1), <<ea>>))
+\* x^e1 * x^e2 and x^(e1 + e2) have the same dimension, also for symbolic exponents  la * symbol + lb
+PowersAdd ==
+  Len(stack) >= 3 =>
+    LET b == stack[Len(stack) - 2]  e1 == stack[Len(stack) - 1]  e2 == stack[Len(stack)]
+        pw == Op("pow", 2)  ml == Op("mul", 2)  ad == Op("add", 2) IN
+      (/\ ~b.a /\ ~HasSym(b) /\ IsLin(e1) /\ IsLin(e2)
+       /\ IsLin(Result(ad, <<e1, e2>>))) =>
+         LET lhs == Result(ml, <<Result(pw, <<b, e1>>), Result(pw, <<b, e2>>)>>)
+             rhs == Result(pw, <<b, Result(ad, <<e1, e2>>)>>) IN
+           /\ Decided(ml, <<Result(pw, <<b, e1>>), Result(pw, <<b, e2>>)>>)
+           /\ ~lhs.a /\ ~rhs.a /\ AllEquiv(<<lhs, rhs>>)
+\* a symbolic power is never mistaken for a plain dimension: volume^gamma + volume is refused
+SymbolicPartsCount ==
+  \A i \in DOMAIN stack : HasSym(stack[i]) =>
+      ~NodeOK(Op("add", 2), <<stack[i], DimE(stack[i].d)>>)
 =============================================================================
